@@ -94,6 +94,22 @@ type concCase struct {
 	NoYieldDigest bool `json:"no_yield_digest,omitempty"`
 	// Pristine: compare with solo baselines taken in fresh processes as well.
 	Pristine bool `json:"pristine,omitempty"`
+	// Prelude: the task sets this worker process ran just before (only kept for the fresh-process clause, whose point
+	// is what earlier tasks left behind in the process); replay runs them first, minimisation drops what is not needed.
+	Prelude []concCase `json:"prelude,omitempty"`
+}
+
+// concHistory holds the last few task sets run by this process.
+var concHistory []concCase
+
+const concHistoryLen = 3
+
+func rememberConc(cs concCase) {
+	cs.Prelude, cs.Picks = nil, nil
+	concHistory = append(concHistory, cs)
+	if len(concHistory) > concHistoryLen {
+		concHistory = concHistory[len(concHistory)-concHistoryLen:]
+	}
 }
 
 // ---------------------------------------------------------------------------------------------------------
@@ -650,6 +666,7 @@ func (s concurrent) runFree(c *Ctx, cs concCase, soloFn func() []string) {
 
 func (s concurrent) Run(c *Ctx, i int) {
 	cs := concGen(c.Seed, i)
+	defer rememberConc(cs)
 	for _, t := range cs.Tasks {
 		c.Count("task."+taskClass(t), 1)
 	}
@@ -792,6 +809,9 @@ func (s concurrent) checkPristine(c *Ctx, cs concCase, got [][]string, where str
 			c.Count("pristine.solo-processes", 1)
 		}
 	}
+	if cs.Prelude == nil {
+		cs.Prelude = append([]concCase(nil), concHistory...)
+	}
 	for _, outs := range got {
 		for i := range outs {
 			if pr[i] != "\x00same-process" && outs[i] != pr[i] {
@@ -828,6 +848,9 @@ func (s concurrent) Replay(c *Ctx, caseJSON []byte) error {
 		}
 		return fmt.Errorf("not a concurrent case")
 	}
+	for _, p := range cs.Prelude {
+		soloOutputs(p) // what this process ran before the case: its tasks, one after the other
+	}
 	if cs.Free {
 		fmt.Fprintf(os.Stderr, "##INDEX %d\n", 0)
 		s.runFree(c, cs, func() []string { return soloOutputs(cs) })
@@ -853,6 +876,28 @@ func (s concurrent) Shrink(caseJSON []byte) [][]byte {
 	emit := func(x concCase) {
 		if b, err := json.Marshal(x); err == nil {
 			out = append(out, b)
+		}
+	}
+	if len(cs.Prelude) > 0 {
+		x := cs
+		x.Prelude = []concCase{}
+		emit(x)
+		for d := range cs.Prelude {
+			y := cs
+			y.Prelude = append(append([]concCase{}, cs.Prelude[:d]...), cs.Prelude[d+1:]...)
+			emit(y)
+		}
+		for d, p := range cs.Prelude {
+			for t := range p.Tasks {
+				if len(p.Tasks) > 1 {
+					y := cs
+					y.Prelude = append([]concCase{}, cs.Prelude...)
+					q := p
+					q.Tasks = append(append([]drive.CTask{}, p.Tasks[:t]...), p.Tasks[t+1:]...)
+					y.Prelude[d] = q
+					emit(y)
+				}
+			}
 		}
 	}
 	// drop one task (and its picks, renumbering the rest)
